@@ -123,6 +123,16 @@ def check(run):
                f"{fi.qualname} mutates its parameter `{p}`: every caller hands it a node allocated in its own activation", why, mech="call-site freshness")
     run.ob("R3-shared-writes", "stores-census", ef.n_stores >= 40, "src/multidecoder", f"{ef.n_stores} stores / mutating calls on the scan path classified by owner",
            "fewer stores than on the reference tree", mech="census")
+    # caches on the registry-build path make a later registry depend on the history of earlier builds
+    for fi in sorted(build_path, key=lambda f: (f.module.name, f.lineno)):
+        if isinstance(fi.node, ast.Lambda):
+            continue
+        for d in fi.decorators:
+            dd = prog.dotted(fi.module, d.func if isinstance(d, ast.Call) else d)
+            if dd in E.CACHE_DECORATORS:
+                run.ob("R3-shared-writes", f"{fi.fq}/cache-decorator", False, f"{fi.module.rel}:{fi.lineno}",
+                       "no function on the registry-build path is memoised", f"@{dd}: the result object is shared by every later build (history-dependent configuration)",
+                       mech="decorator census")
     # self.decoders written only by __init__
     writers = []
     for fi in prog.all_funcs():
